@@ -16,6 +16,9 @@ var commonAssume = []string{
 }
 
 var props = []propCfg{
+	{ID: "C08", Pkg: "c08", Quick: q(4, 1), Thorough: th(16, 12),
+		Rule: "cases = (one of the 18 iterator-bearing kinds, configuration [comparator, ring capacity, B-tree order], a state built by inserts followed by removals / pops-and-repushes [ring wrapped, heap after pops, trees after deletions], a script of Next/Prev/Begin/End/First/Last/NextTo(p)/PrevTo(p) calls with predicates on (index|key, value) from a family incl. constant true/false) plus every call sequence of a fixed length for n in {0,1,2,3} on every type; oracle = integer cursor over the container's own Values() / Keys()+Get sequence: the return value of every call, and Index()/Key()/Value() after every successful move; nothing is read at the sentinels. Non-trivial: n >= 1, >= 3 moves and a direction reversal at or next to a sentinel (forward-only iterators: a Begin/First restart issued at or next to the end). Distinct = FNV-64 of the canonical JSON of the case.",
+		Assume: append([]string{"the container is not modified while an iterator is in use (README: unsafe); values are read only after a successful move"}, commonAssume...)},
 	{ID: "C09", Pkg: "c09", Quick: q(4, 1), Thorough: th(16, 15),
 		Rule: "cases = (LinkedHashMap | LinkedHashSet, int | string keys [string domain includes escaped characters and a key contained in another], constructor values, script of Put/Add (variadic), Remove, Clear over 6..8-key domains) plus every sequence of a fixed length over put/remove of 3 keys and clear; oracle = ordered-slice model (position of first insertion since last absent): Keys/Values, forward and backward iterator, Each callback order and indices, and the key order of ToJSON (read with a token decoder) equal the model after every step. Non-trivial: >= 3 live keys at some point AND a re-put of a live key AND a remove-then-reinsert. Distinct = FNV-64 of the canonical JSON of the case.",
 		Assume: commonAssume},
